@@ -1123,7 +1123,13 @@ class ServerSSM(SSM):
         if self.segmentRetryCount < self.numberOfApduRetries:
             self.segmentRetryCount += 1
             self.start_timer(self.segmentTimeout)
-            self.fill_window(self.initialSequenceNumber)
+
+            # until the first segment has been acknowledged there is no
+            # actual window size, only the first segment is outstanding
+            if self.actualWindowSize is None:
+                self.response(self.get_segment(0))
+            else:
+                self.fill_window(self.initialSequenceNumber)
         else:
             # give up
             self.set_state(ABORTED)
